@@ -9,6 +9,7 @@ It never runs rs-tftpd code: it interprets the MIR facts abstractly.
   * records: call events (with argument values), place reads/writes, obligations (asserts and
     modelled std preconditions) with proven / not proven, explored supergraph nodes and edges.
 """
+import time
 import sys
 from . import lin
 from .facts import strip_generics
@@ -67,8 +68,12 @@ class Event:
         return "Event(%s @%s %s)" % (self.callee, self.loc, self.region)
 
 
+class BudgetExceeded(Exception):
+    """the exploration did not finish within its budget: nothing can be concluded from it"""
+
+
 class State:
-    __slots__ = ("store", "ctx", "writes", "reads", "assumed", "aids")
+    __slots__ = ("store", "ctx", "writes", "reads", "assumed", "aids", "consC")
 
     def __init__(self, ranges):
         self.store = {}
@@ -77,6 +82,7 @@ class State:
         self.reads = None
         self.assumed = ()
         self.aids = ()    # nodes of the abstract reachability graph this state continues from
+        self.consC = {}   # entry values of the conserved sums / differences of the loops being analysed
 
     def fork(self):
         s = State.__new__(State)
@@ -86,6 +92,7 @@ class State:
         s.reads = self.reads
         s.assumed = self.assumed
         s.aids = self.aids
+        s.consC = self.consC
         return s
 
 
@@ -136,7 +143,12 @@ class Engine:
         self.nodes = {}      # (frame_id, bb) -> visit count
         # abstract reachability graph: one node per (program node, state that executed it); path-sensitive
         # exactly as far as the exploration is (states are only merged when they differ in drop flags)
+        self.anc_eq_log = []   # comparisons `ancestor == X` with ancestor from Path::ancestors (monitors.py)
+        self.index_log = []    # (node, frame, range kind, start, end) of every range-indexing of a slice
+        self.deadline = None         # wall-clock limit of the current exploration (set by World)
+        self.max_join_states = 1500  # more states than this at one join point = state explosion, give up
         self.iter_summaries = {}
+        self.return_hooks = []   # called when an inlined crate-local call returns: (eng, state, caller frame, bb, callee body, returned subtree)
         self.iter_loops = {}   # synthetic loops of closure-taking iterator adapters: (callable frame, 0) -> info
         self.discr_src = {}    # temp holding a discriminant -> place whose discriminant it is
         self.switch_src = {}   # switch node -> places whose discriminant the switch tests
@@ -1117,7 +1129,9 @@ class Engine:
         while pending:
             guard += 1
             if guard > 100000:
-                raise RuntimeError("exploration budget exceeded in %s" % body.path)
+                raise BudgetExceeded("exploration budget exceeded in %s" % body.path)
+            if self.deadline is not None and (guard & 15) == 0 and time.time() > self.deadline:
+                raise BudgetExceeded("exploration of %s exceeded its time budget (%d states at one join point)" % (body.path, max(len(v) for v in pending.values())))
             bb = min(pending, key=lambda b: rpo.get(b, 1 << 30))
             items = pending.pop(bb)
             if bb == head:
@@ -1248,6 +1262,8 @@ class Engine:
         return True
 
     def merge_items(self, fr, bb, items):
+        if len(items) > self.max_join_states:
+            raise BudgetExceeded("state explosion: %d states reach block %s of %s" % (len(items), bb, fr.body.path))
         for st, _ in items:
             self.prune_dead(fr, bb, st)
         if len(items) == 1:
@@ -1335,7 +1351,7 @@ class Engine:
                                 bv = bs.store.get(root_, {}).get(path_)
                                 if bv is not None and bv[0] == "i":
                                     self.link(hv[1], bv[1])
-                    cands = self.gen_candidates(st_in, fr, M, reads, bodies_seen, backs)
+                    cands = self.gen_candidates(st_in, fr, M, reads, bodies_seen, backs, head=h)
                     n0 = len(cands)
                     cands = [c for c in cands if self.cand_holds(st_in, c)]
                     if self.opts.get("debug_loops"):
@@ -1385,7 +1401,10 @@ class Engine:
     def tightest(self, cands):
         best = {}
         pair_best = {}
+        cons_ = [c for c in cands if c[0] == "cons"]
         for c in cands:
+            if c[0] == "cons":
+                continue
             _, a, b, k = c
             if a is not None and b is None:
                 key = ("ub", a)
@@ -1399,7 +1418,7 @@ class Engine:
                 key = (a, b)
                 if key not in pair_best or k < pair_best[key][3]:
                     pair_best[key] = c
-        return list(best.values()) + list(pair_best.values())
+        return list(best.values()) + list(pair_best.values()) + cons_
 
     def local_houdini(self, S, backs, cands):
         """greatest subset of cands that is preserved by the recorded back-edge states, computed without
@@ -1526,7 +1545,10 @@ class Engine:
         # assume the candidates; among constant bounds of one place only the tightest (the others follow)
         best = {}
         rest = []
+        cons_ = [c for c in cands if c[0] == "cons"]
         for c in cands:
+            if c[0] == "cons":
+                continue
             _, a, b, k = c
             if a is not None and b is None:
                 key = ("ub", a)
@@ -1544,8 +1566,17 @@ class Engine:
             key = (a, b)
             if key not in pair_best or k < pair_best[key][3]:
                 pair_best[key] = c
+        if cons_:
+            cc = dict(st_in.consC)
+            for c in cons_:
+                _, a_, b_, (sign_, dr_, lk_) = c
+                va = self.bool_to_int(st_in, self.read(st_in, a_[0], a_[1]))
+                vb = self.bool_to_int(st_in, self.read(st_in, b_[0], b_[1]))
+                if va[0] == "i" and vb[0] == "i":
+                    cc[(lk_, a_, b_, sign_)] = lin.add(va[1], lin.scale(vb[1], sign_))
+            S.consC = cc
         assumed = []
-        for c in list(best.values()) + list(pair_best.values()):
+        for c in list(best.values()) + list(pair_best.values()) + cons_:
             e = self.cand_expr(S, c)
             if e is not None:
                 S.ctx.add_hyp(e)
@@ -1563,7 +1594,7 @@ class Engine:
         return None
 
     # candidates: ('le', placeA|None, placeB|None, k)  meaning  A - B <= k  (None = 0)
-    def gen_candidates(self, st_in, fr, M, reads, bodies_seen, backs=()):
+    def gen_candidates(self, st_in, fr, M, reads, bodies_seen, backs=(), head=None):
         ks = set([0, 1])
         for cp, cv in self.prog.consts.items():
             if cv.get("val") is not None and abs(int(cv["val"])) < (1 << 40):
@@ -1635,6 +1666,19 @@ class Engine:
                 for k in (-1, 0, 1):
                     cands.append(("le", m, y, k))
                     cands.append(("le", y, m, k))
+        # conservation: for two modified integer places, their sum / difference keeps its entry value
+        # (counting loops: `len - i`, `len + popped`)
+        plain = [m for m in ints_M if m[0] != ("G",) and not self.is_bool_place(m[0], m[1])]
+        if 2 <= len(plain) <= 8:
+            for i_, m1 in enumerate(plain):
+                for m2 in plain[i_ + 1:]:
+                    v1 = self.read(st_in, m1[0], m1[1])
+                    v2 = self.read(st_in, m2[0], m2[1])
+                    if v1[0] != "i" or v2[0] != "i":
+                        continue
+                    for sign in (1, -1):
+                        for dr in (1, -1):
+                            cands.append(("cons", m1, m2, (sign, dr, (fr.id, head))))
         if self.opts.get("debug_loops"):
             print("  CANDVARS M:", [self.show_cand(("le", m, None, 0)) for m in ints_M], "Y:", [self.show_cand(("le", y, None, 0)) for y in Y])
         # dedupe
@@ -1732,8 +1776,8 @@ class Engine:
         """could a relation between places m and y be derivable at some back edge? (their values share
         a symbol or are connected through constraints)"""
         for bs in (list(backs) or [st_in]):
-            vm = self.read(bs, m[0], m[1])
-            vy = self.read(bs, y[0], y[1])
+            vm = self.bool_to_int(bs, self.read(bs, m[0], m[1]))
+            vy = self.bool_to_int(bs, self.read(bs, y[0], y[1]))
             if vm[0] != "i" or vy[0] != "i":
                 continue
             sm = [s_ for s_, _ in vm[1][1]]
@@ -1751,19 +1795,42 @@ class Engine:
 
     def cand_expr(self, st, c):
         _, a, b, k = c
+        if c[0] == "cons":
+            # conservation: dir * (a + sign * b - C) <= 0 with C the value of a + sign * b on loop entry
+            sign, dr, lk = k
+            va = self.bool_to_int(st, self.read(st, a[0], a[1]))
+            vb = self.bool_to_int(st, self.read(st, b[0], b[1]))
+            if va[0] != "i" or vb[0] != "i":
+                return None
+            C = st.consC.get((lk, a, b, sign))
+            if C is None:
+                # not inside this loop's analysis yet (the entry state): the entry value is, by definition, conserved
+                return lin.ZERO if False else lin.sub(lin.const(0), lin.const(0))
+            e = lin.sub(lin.add(va[1], lin.scale(vb[1], sign)), C)
+            return lin.scale(e, dr)
         ea = lin.ZERO
         eb = lin.ZERO
         if a is not None:
-            va = self.read(st, a[0], a[1])
+            va = self.bool_to_int(st, self.read(st, a[0], a[1]))
             if va[0] != "i":
                 return None
             ea = va[1]
         if b is not None:
-            vb = self.read(st, b[0], b[1])
+            vb = self.bool_to_int(st, self.read(st, b[0], b[1]))
             if vb[0] != "i":
                 return None
             eb = vb[1]
         return lin.sub(lin.sub(ea, eb), lin.const(k))
+
+    def bool_to_int(self, st, v):
+        """a stored symbolic bool whose truth value the state decides, as the integer 0 / 1"""
+        if v[0] == "b":
+            self.fm_calls += 2
+            if self.prove_bool(st, v[1], True):
+                return ICONST(1)
+            if self.prove_bool(st, v[1], False):
+                return ICONST(0)
+        return v
 
     def cand_holds(self, st, c):
         e = self.cand_expr(st, c)
@@ -1781,6 +1848,8 @@ class Engine:
         _, a, b, k = c
         def nm(p):
             return "0" if p is None else short_root(p[0]) + "".join("." + short_elem(x) for x in p[1])
+        if c[0] == "cons":
+            return "%s %s %s %s entry value" % (nm(a), "+" if k[0] > 0 else "-", nm(b), "<=" if k[1] > 0 else ">=")
         return "%s - %s <= %d" % (nm(a), nm(b), k)
 
     # ---- one block
@@ -2303,6 +2372,8 @@ class Engine:
         for s2 in rets:
             sub = self.subtree(s2, ("L", nf.id, 0), (), callee.local_ty(0))
             self.write_subtree(s2, droot, dpath, sub, (fr.id, bb))
+            for h in self.return_hooks:
+                h(self, s2, fr, bb, callee, sub)
             if self.record and t.get("t") is not None:
                 self.edges.add(((nf.id, "ret"), (fr.id, t["t"]), "return"))
             self.drop_frame(s2, nf.id)
